@@ -5,6 +5,7 @@ CONSTANTS
  USizes <- OneU  VSizes <- TinyV  Pads <- NoValues  FlagSet <- NoValues
  CommonU <- NoValues  CommonV <- NoValues
  FamStreams <- NoValues  FamBase = 3  FamGroups <- NoValues
+ ParkA <- NoValues  ParkB <- NoValues
  Volume = FALSE
  MinSteps = 99  MaxSteps = 8
 VIEW View
